@@ -8,10 +8,13 @@
 
    PROVED HERE (…_partial): the statement for every request WITHOUT A BODY (all ten methods, any target, any
    protocol token, any list of header lines with any amount of SP before the value and inner/trailing spaces in
-   it), and its lifting to pipelined sequences of such requests. MISSING: Content-Length bodies, chunked bodies,
-   trailers, the response side. Those are decided on every run by the differential harness against net/http
+   it) and for every request framed by CONTENT-LENGTH (the same requests followed by "Content-Length: <decimal n>",
+   the blank line and any n < 2^62 body bytes: the body is extracted exactly - every byte value, including CR LF and
+   text that looks like a request - and the successor starts exactly behind it), and the lifting to pipelined
+   sequences mixing both kinds. The decimal rendering is proved to be read back by the parser's integer reader
+   (C07Dec.parse_int_dec). MISSING: chunked bodies, trailers, the response side. Those are decided on every run by the differential harness against net/http
    (cmd/httpref), not by a theorem. That `meaning` coincides with what net/http extracts is tested, not proved. *)
-Require Import HttpParser C06Proofs C07Reqs.
+Require Import HttpParser C06Proofs C07Reqs C07Dec C07Body.
 From Coq Require Import List NArith ZArith Bool Lia.
 Import ListNotations.
 Open Scope N_scope.
@@ -63,5 +66,59 @@ Proof.
   - unfold boundary, init; cbn. repeat split.
 Qed.
 
+(* requests with or without a Content-Length body *)
+Theorem c07_roundtrip_msg_partial m p rest :
+  wf_msg m -> boundary p ->
+  exists p', boundary p' /\ run_bytes p (render_msg m ++ rest) [] = run_bytes p' rest (meaning_msg m).
+Proof. exact (c07_roundtrip_msg m p rest). Qed.
+
+Lemma c07_msg_acc m p rest acc :
+  wf_msg m -> boundary p ->
+  exists p', boundary p' /\ run_bytes p (render_msg m ++ rest) acc = run_bytes p' rest (acc ++ meaning_msg m).
+Proof.
+  intros Hr Hb. destruct (c07_roundtrip_msg m p rest Hr Hb) as (p1 & Hb1 & E1).
+  exists p1. split; auto.
+  rewrite run_bytes_acc, E1, (run_bytes_acc rest p1 (meaning_msg m)), (run_bytes_acc rest p1 (acc ++ meaning_msg m)).
+  destruct (run_bytes p1 rest []) as [[q ev] e]. cbv beta iota. now rewrite app_assoc.
+Qed.
+
+Theorem c07_pipelined_msg_partial ms : forall p rest acc,
+  Forall wf_msg ms -> boundary p ->
+  exists p', boundary p' /\
+    run_bytes p (concat (map render_msg ms) ++ rest) acc = run_bytes p' rest (acc ++ concat (map meaning_msg ms)).
+Proof.
+  induction ms as [|m ms IH]; intros p rest acc Hw Hb; cbn [map concat].
+  - exists p. split; auto. now rewrite app_nil_r.
+  - inversion Hw as [|? ? Hr Hrs]; subst.
+    destruct (c07_msg_acc m p (concat (map render_msg ms) ++ rest) acc Hr Hb) as (p1 & Hb1 & E1).
+    destruct (IH p1 rest (acc ++ meaning_msg m) Hrs Hb1) as (p2 & Hb2 & E2).
+    exists p2. split; auto. rewrite <- app_assoc, E1, E2. now rewrite app_assoc.
+Qed.
+
+(* the integer reader reads back every rendered length *)
+Theorem c07_decimal_roundtrip n : n < LIM -> parse_int 10 (dec n) = Some (Z.of_N n).
+Proof. exact (parse_int_dec n). Qed.
+
+(* non-vacuity: "POST /a HTTP/1.1\r\nContent-Length: 12\r\n\r\nGET / HTTP/1" - a body that looks like a request *)
+Example c07_example_body :
+  let b := [71;69;84;32;47;32;72;84;84;80;47;49] in
+  let m := {| mreq := {| rmethod := m_POST; rtarget := [47;97]; rproto := [72;84;84;80;47;49;46;49]; rhdrs := [] |};
+              mbody := Some b |} in
+  wf_msg m /\ snd (fst (run_bytes (init false) (render_msg m) [])) = meaning_msg m /\
+  In (EBody b) (meaning_msg m).
+Proof.
+  split; [|split; [vm_compute; reflexivity|vm_compute; tauto]].
+  split; [|vm_compute; reflexivity].
+  unfold wf_req; cbn. repeat split.
+  - vm_compute. tauto.
+  - exists 47, [97]. repeat split; auto. repeat constructor; unfold not_sp, SP; lia.
+  - exists 72, [84;84;80;47;49;46;49]. unfold SP, CR. repeat split; try lia.
+    repeat (constructor; [lia|]). constructor.
+  - constructor.
+Qed.
+
 Print Assumptions c07_roundtrip_nobody_partial.
 Print Assumptions c07_pipelined_nobody_partial.
+Print Assumptions c07_roundtrip_msg_partial.
+Print Assumptions c07_pipelined_msg_partial.
+Print Assumptions c07_decimal_roundtrip.
